@@ -200,6 +200,38 @@ func c09R3(c *Ctx) {
 				"construct is the constructor's parameter", "Collection.construct is replaced after construction: the membership test can be swapped out")
 		})
 	}
+	// the collection handed out is the one that was just built with this very
+	// construct: every non-nil result of the constructor is its own allocation,
+	// into which the construct parameter was stored (a collection taken from a
+	// memo or a field carries whatever membership test its first builder chose)
+	if ctor := P.Func("servitor/pub", "NewCollectionFromObject"); ctor != nil {
+		for _, b := range ctor.Blocks {
+			ret, ok := b.Instrs[len(b.Instrs)-1].(*ssa.Return)
+			if !ok || isNilConst(ret.Results[0]) {
+				continue
+			}
+			v := unwrapLoad(ret.Results[0])
+			al, isAlloc := v.(*ssa.Alloc)
+			okFresh := isAlloc && al.Heap && al.Parent() == ctor
+			if okFresh {
+				stored := false
+				for _, r := range refs(al) {
+					if fa, ok := r.(*ssa.FieldAddr); ok && fieldOf(fa) == cf {
+						for _, rr := range refs(fa) {
+							if st, ok := rr.(*ssa.Store); ok {
+								if _, isParam := unwrapLoad(st.Val).(*ssa.Parameter); isParam {
+									stored = true
+								}
+							}
+						}
+					}
+				}
+				okFresh = stored
+			}
+			c.check(okFresh, FuncName(ctor)+"/returns-own-collection", P.InstrPos(ret), FuncName(ctor),
+				"the collection returned is the one built here with the caller's construct", "the constructor can return a collection it did not build with the caller's construct (a remembered one): the membership test of whoever built it first applies to every later listing")
+		}
+	}
 	// harvest: every delivered element is construct(elements[k], c.id) stored at its slot; next pages inherit construct
 	h := P.Method("servitor/pub", "Collection", "harvestWithEmptyCount")
 	nApply := 0
